@@ -66,6 +66,41 @@ def stage_bulk(ctx, e, nfiles):
                 break
 
 
+FLAGSETS = {
+    "node verify": (lambda ix: ["node", "verify", ix.node(bad=0)], ["--cancel", "--all", "--healthy", "--missing", "--corrupt", "--force"]),
+    "node clean": (lambda ix: ["node", "clean", ix.node(bad=0)], ["--now", "--cancel", "--archive-ok", "--include-bad", "--force"]),
+    "group sync": (lambda ix: ["group", "sync", ix.group(bad=0), ix.node(bad=0)], ["--cancel", "--show-acqs", "--show-files", "--force"]),
+    "node sync": (lambda ix: ["node", "sync", ix.node(bad=0), ix.group(bad=0)], ["--cancel", "--show-acqs", "--show-files", "--force"]),
+}
+
+
+def stage_check_mode_grid(ctx, e):
+    """check mode never mutates, whatever else is on the command line: every subset of the boolean options of the four
+    check-then-update commands together with --check (usage errors included), and every subset with the confirmation
+    declined, on random indexes with suspect / released / healthy copies"""
+    import itertools
+    for kind, (base, flags) in FLAGSETS.items():
+        for r in range(len(flags) + 1):
+            for subset in itertools.combinations(flags, r):
+                for mode in ("check", "declined"):
+                    if mode == "declined" and "--force" in subset:
+                        continue
+                    seed = ctx.rng.getrandbits(40)
+                    ix = cliharness.Index(e, random.Random(seed))
+                    argv = base(ix) + list(subset) + (["--check"] if mode == "check" else [])
+                    before = cliharness.full_dump()
+                    rc, out, exc = e.cli(argv, input=None if mode == "check" else "n\n")
+                    after = cliharness.full_dump()
+                    ctx.count(f"grid:{kind}:{mode}:{'usage' if rc == 2 else 'ran'}")
+                    ctx.case(("checkgrid", kind, subset, mode, seed), nontrivial=True)
+                    if after != before:
+                        ctx.violation(f"mutated:grid:{kind}:{mode}", f"`alpenhorn {' '.join(argv)}`"
+                                      f"{' (confirmation declined)' if mode == 'declined' else ''} (exit {rc}) changed the index: "
+                                      f"{[t for t in after if after[t] != before[t]]}",
+                                      {"kind": "cli", "argv": argv, "stdin": None if mode == "check" else "n\n", "seed": seed, "exit": rc,
+                                       "output": out[-400:]})
+
+
 def run(ctx):
     ok = common.proof_stage(ctx, MODULE)
     rng = ctx.rng
@@ -123,6 +158,7 @@ def run(ctx):
                         ctx.violation(f"partial:{meta['kind']}", f"`alpenhorn {' '.join(argv)}` with a DB error at statement {k} of {nstmt} "
                                       f"applied part of its changes (tables {diff})",
                                       {"kind": "cli-fault", "argv": argv, "stdin": stdin, "seed": seed, "k": k, "exit": rc2})
+        stage_check_mode_grid(ctx, e)
         stage_bulk(ctx, e, 260 if ctx.quick() else 1200)
     outs = common.Driver().batch(model_lines) if model_lines else []
     for line, (argv, changed, rc), o in zip(model_lines, model_meta, outs):
